@@ -425,6 +425,9 @@ def oracle_writes(scn, tr, types):
     lines, problems, pending = segment(scn, tr)
     fails = []
     mem = {v.slot: bytes(v.init) for v in scn.vars}
+    # slots the application's own handlers store into (scripted pokes): their contents after a line are not
+    # the library's doing, so stored values are not judged there (acceptance/rejection still is)
+    poked = set(slot for rs in scn.scripts.values() for r in rs for (slot, _) in r.pokes)
     # replay memory changes in order; judge each line
     for ln in lines:
         before = dict(mem)
@@ -468,7 +471,7 @@ def oracle_writes(scn, tr, types):
                 if v.vtype in (INT, UINT, HEX):
                     want = value_bytes(v, r[1])
                     got = mem[v.slot][:v.size]
-                    if got != want and not cb_failed_before(vw, i):
+                    if got != want and not cb_failed_before(vw, i) and v.slot not in poked:
                         fails.append('line %r: field %d %r is well-formed and in range but variable slot %d holds %s instead of %s'
                                      % (ln.text, i, f, v.slot, got.hex(), want.hex()))
                         ok_so_far = False
@@ -476,12 +479,12 @@ def oracle_writes(scn, tr, types):
                 else:
                     want = r[1] + (b'\0' if v.vtype == BUFSTR else b'')
                     got = mem[v.slot][:len(want)]
-                    if got != want and not cb_failed_before(vw, i):
+                    if got != want and not cb_failed_before(vw, i) and v.slot not in poked:
                         fails.append('line %r: field %d %r decodes to %s but variable slot %d starts with %s'
                                      % (ln.text, i, f, want.hex(), v.slot, got.hex()))
                         ok_so_far = False
                         break
-                    if mem[v.slot][len(want):] != before[v.slot][len(want):] and v.vtype == BUFHEX:
+                    if mem[v.slot][len(want):] != before[v.slot][len(want):] and v.vtype == BUFHEX and v.slot not in poked:
                         fails.append('line %r: field %d: bytes beyond the decoded length changed in slot %d' % (ln.text, i, v.slot))
                     # write_size told to the variable callback
                     mine = [x for x in vw if int(x[3]) == i]
@@ -498,7 +501,7 @@ def oracle_writes(scn, tr, types):
                 if ln.result != 'ERROR':
                     fails.append('line %r: field %d %r is malformed or out of range for its variable but the answer is %s'
                                  % (ln.text, i, f, ln.result))
-                if v.vtype in (INT, UINT, HEX) and mem[v.slot] != before[v.slot]:
+                if v.vtype in (INT, UINT, HEX) and mem[v.slot] != before[v.slot] and v.slot not in poked:
                     fails.append('line %r: field %d %r is rejected but variable slot %d changed from %s to %s'
                                  % (ln.text, i, f, v.slot, before[v.slot].hex(), mem[v.slot].hex()))
                 if hw:
